@@ -14,9 +14,6 @@
    ghost_erase s t   s is t plus some deleted adjacent [Open; Close] pairs (ghost objects)
    geb / subb        executable deciders (ghost_erase / subsequence), run on the real tapes by the kind
                      bt.mir (harness side: the real Lexer and the real tape)
-   odd_hit           the reference run takes the `only_empties` branch (tape.rs:600-616) with an ODD number
-                     of tokens after the parent: chunks_exact(2) ignores the odd one, set_len drops it
-                     (finding L: `a = { {} x y = z }` loses x)
    No proofs in this file. *)
 From JV Require Import Bytes Tables BinPrim BinTape.
 Open Scope N_scope.
@@ -112,33 +109,3 @@ Fixpoint subb (s t : list btoken) {struct s} : bool :=
 
 Definition mirrorb (toks : list btoken) (t : tape) : bool := geb (noeq toks) (noeq (untape t)).
 Definition submirrorb (toks : list btoken) (t : tape) : bool := subb (noeq toks) (noeq (untape t)).
-
-(* the next reference iteration takes the only_empties branch with an odd remainder *)
-Definition odd_hit_step (s : st) : bool :=
-  match get_split 2 (s_data s) with
-  | Some (h, _) =>
-    if le_word 2 h =? L_EQUAL then
-      match s_ps s with
-      | ArrayValue =>
-        match pop (s_tape s) with
-        | Some (t1, last) =>
-          negb (is_array_or_end last) && only_empties (s_par s) t1
-          && Nat.odd (length (skipn (S (s_par s)) t1))
-        | None => false
-        end
-      | _ => false
-      end
-    else false
-  | None => false
-  end.
-
-Fixpoint odd_loop (fuel : nat) (s : st) : bool :=
-  match fuel with
-  | O => false
-  | S f => if odd_hit_step s then true
-           else match iter false false s with
-                | Continue s' => odd_loop f s'
-                | Done _ => false
-                end
-  end.
-Definition odd_hit (d : bytes) : bool := odd_loop (S (length d)) (init d).
